@@ -323,7 +323,8 @@ pub struct Cc14Stats {
 
 /// Call-by-call comparison of the real scanner with RefCc14 on a history.
 pub fn check_cc14_history(ops: &[Op], stats: &mut Cc14Stats) -> Result<(), Fail> {
-    let mut sc = api(ControlChange14BitMessageScanner::new);
+    // "since creation": created through new() or through Default (chosen by the history itself)
+    let mut sc = if hash64(&ops) & 1 == 0 { api(ControlChange14BitMessageScanner::new) } else { api(ControlChange14BitMessageScanner::default) };
     let mut rf = RefCc14::default();
     let mut last_was_report_on: [bool; 16] = [false; 16];
     for (i, op) in ops.iter().enumerate() {
@@ -465,7 +466,8 @@ pub fn run_c08(ctx: &Ctx) -> Report {
         let t0 = std::time::Instant::now();
         let out = bfs(
             ctx,
-            BState { sc: ControlChange14BitMessageScanner::new(), rf: RefCc14::default() },
+            // channel 15's exploration starts from a Default-constructed scanner
+            BState { sc: if ch == 15 { ControlChange14BitMessageScanner::default() } else { ControlChange14BitMessageScanner::new() }, rf: RefCc14::default() },
             alphabet.len(),
             |s, i| bfs_step(s, &alphabet[i]),
             |s| key_of(&s.sc, &[hash64(&s.rf)]),
